@@ -33,13 +33,17 @@ for d in sorted(glob.glob(os.path.join(VERIF, 'seeded', '*'))):
     rows.append('| %s | %s | %s | %s | %s | %s | %s |' % (
         name, meta.get('property', name[:3]), files, (meta.get('summary', '') or '').replace('|', '/')[:170],
         ' '.join(caught) or '-', ' '.join(missed) or '-',
-        ('; '.join(keys))[:110] + ((' (missed at first by %s, check strengthened)' % ' '.join(first_missed)) if first_missed else '')))
+        ('; '.join(keys))[:110] + ((' (missed at first by %s, check strengthened)' % ' '.join(first_missed)) if first_missed else '')
+        + ((' ' if keys else '') + 'ANALYSIS: ' + meta['analysis'] if meta.get('analysis') else '')))
 txt = ['## 12. Seeded changes: which checks catch which\n',
        'Each change below was written by an independent sub-agent that received only the text of one property and a private worktree of the library '
        '(nothing from /verif), together with a demonstration; I confirmed each by applying `seeded/<name>/patch.diff` to /repo, running the checks '
        '(`scripts/try_seeded.py`, quick tier, seed 1 unless noted in `results.jsonl`) and undoing it.  None is committed to /repo.  "caught" = the check '
        'exits 1 with a VIOLATION line; the last column gives the first violation keys.  A change that was missed at first led to a stronger check '
-       '(noted); the trial history is in `seeded/<name>/results.jsonl`.\n',
+       '(noted); the trial history is in `seeded/<name>/results.jsonl`.  Rows `auto_NNN` are automatic single-token mutants (`scripts/automut.py`: relational, arithmetic, '
+       'boolean, constant and lb/ub swaps on random code lines of the anchored files), tried the same way with the checks of the file\'s properties; every survivor '
+       'was looked at by hand and its row carries the ANALYSIS (equivalent, outside the statements, or the gap it exposed and how it was closed).  Rows `*_self_*` '
+       'were written by me to probe one mechanism.\n',
        '| name | property | file | change | caught by | not caught by (also tried) | first keys |', '|---|---|---|---|---|---|---|'] + rows + ['']
 s = open(os.path.join(VERIF, 'DESIGN.md')).read()
 if '## 12. Seeded changes' in s:
